@@ -561,3 +561,9 @@ func RunJobs(pkg string) {
 		enc.Encode(runJob(j))
 	}
 }
+
+// ShapeTensor is a tensor of which only the shape matters (symbolically it has
+// no data at all: any access beyond Shape()/Dtype() ends the run as inconclusive).
+func (v *T) ShapeTensor(name string, dims []int) tensor.Tensor {
+	return tensor.New(tensor.WithShape(dims...), tensor.Of(tensor.Float32))
+}
